@@ -431,6 +431,23 @@ def tree_5(ctx, rep):
                         ok = vals == ['%s.children' % node_param]
     rep.ob('TREE-5', NORMALIZER, 'Normalizer.visit', "return ''.join(self.visit(child) for child in children)", ok,
            'the default node rendering is not the in-order join of all children')
+    # ... and nothing else: every return of the default visit is the leaf rendering or that join (a shortcut that renders some
+    # node type as a constant belongs in the subclass that wants it; here it would cut the text out of refactor())
+    if v is not None:
+        node_param = v.params()[1]
+        other = []
+        for r in walk_own(v.node):
+            if not isinstance(r, ast.Return):
+                continue
+            val = r.value
+            if isinstance(val, ast.Call) and is_method_call(val, 'join'):
+                continue
+            if isinstance(val, ast.Call) and norm(val.func) == 'self.visit_leaf' and [norm(a) for a in val.args] == [node_param]:
+                continue
+            other.append(norm(val) if val is not None else 'None')
+        rep.ob('TREE-5', NORMALIZER, 'Normalizer.visit', 'every return is the leaf rendering or the join of the children', not other,
+               'the default traversal renders some nodes as %s: RefactoringNormalizer falls back to it for every unmapped node, so '
+               'the text of such a node is dropped by refactor()' % other)
     # the map lookup: a mapped node / leaf returns its string *whatever that string is* (also ''), everything
     # else falls through to the default rendering.  Accepted forms: try/except KeyError around map[x], or
     # `if x in map: return map[x]`.  A truthiness test on the looked-up value (x.get(..) or ..) is wrong for ''.
@@ -455,7 +472,7 @@ def tree_5(ctx, rep):
                'refactoring returns %s%s' % ([norm(r) for r in rets],
                                            ': a truthiness test on the mapped string drops empty replacements' if any(
                                                isinstance(r, ast.BoolOp) for r in other) else ''))
-    rep.minimum('TREE-5', 6)
+    rep.minimum('TREE-5', 7)
 
 
 # ---------------------------------------------------------------------------
